@@ -320,6 +320,19 @@ class Check:
                 self.proof_broken("tools/translate_chunks.py: ReadMem::chunks / ReadMemChunks::next / maximum_read_length no "
                                   "longer have the shape the translator accepts (%s): gen/ReadChunks.v cannot be regenerated" % e)
                 return False
+        if pid in ("C06", "C07"):
+            import translate_chunks
+            import translate_control
+            try:
+                translate_chunks.regenerate(REPO)
+                translate_control.regenerate(REPO)
+            except (translate_chunks.ShapeError, translate_control.ShapeError, OSError) as e:
+                self.proof_broken("tools/translate_control.py: the control transaction layer of cameleon/src/u3v/control_handle.rs "
+                                  "(verify_range, assert_open, verify_ack, send_cmd, read, write, abrm, initialize_config, open, "
+                                  "close; the pinned accessors of register_map.rs and From<u3v::Error> of u3v/mod.rs; the chunk "
+                                  "iterators of cmd.rs) no longer has the shape the translator accepts (%s): gen/ControlSrc.v "
+                                  "cannot be regenerated" % e)
+                return False
         if pid == "C15":
             import translate_code
             try:
@@ -327,6 +340,16 @@ class Check:
             except (translate_code.ShapeError, OSError) as e:
                 self.proof_broken("tools/translate_code.py: enable_streaming / the Sirm accessors no longer have the shape "
                                   "the translator accepts (%s): gen/EnableStreaming.v cannot be regenerated" % e)
+                return False
+        if pid in ("C12", "C15"):
+            import translate_streamparams
+            try:
+                translate_streamparams.regenerate(REPO)
+            except (translate_streamparams.ShapeError, OSError) as e:
+                self.proof_broken("tools/translate_streamparams.py: StreamParams / read_leader / read_payload / read_trailer of "
+                                  "cameleon/src/u3v/stream_handle.rs (or the register_map.rs getters from_control calls) no "
+                                  "longer have the shape the translator accepts (%s): gen/StreamParamsSrc.v cannot be "
+                                  "regenerated" % e)
                 return False
         if pid == "C01":
             import translate_codec
@@ -353,6 +376,27 @@ class Check:
                 self.proof_broken("tools/translate_memprot.py: AccessRight / MemoryProtection / the provided methods of trait "
                                   "Register in impl/src/memory.rs no longer have the shape the translator accepts (%s): "
                                   "gen/MemProtSrc.v cannot be regenerated" % e)
+                return False
+        if pid == "C16":
+            import translate_camera
+            try:
+                translate_camera.regenerate(REPO)
+            except (translate_camera.ShapeError, OSError) as e:
+                self.proof_broken("tools/translate_camera.py: Camera::{open, close, load_context, start_streaming, "
+                                  "stop_streaming, params_ctxt} of cameleon/src/camera.rs (or macro_rules! expect_node, "
+                                  "payload::channel) no longer have the shape the translator accepts (%s): "
+                                  "gen/CameraSrc.v cannot be regenerated" % e)
+                return False
+        if pid == "C03":
+            import translate_ivalue
+            try:
+                translate_ivalue.regenerate(REPO)
+            except (translate_ivalue.ShapeError, OSError) as e:
+                self.proof_broken("tools/translate_ivalue.py: the value-dispatch layer of the GenApi interpreter (trait IValue and "
+                                  "its implementations in genapi/src/ivalue.rs, the ValueStore accessors and NodeId::as_*_kind of "
+                                  "store.rs, the kind tables of interface.rs, the value paths of IntegerNode / FloatNode / "
+                                  "BooleanNode / EnumerationNode / CommandNode) no longer has the shape the translator accepts "
+                                  "(%s): gen/IValueSrc.v cannot be regenerated" % e)
                 return False
         if pid == "C04":
             import translate_cachepath
@@ -406,18 +450,23 @@ class Check:
                 self.proof_broken("tools/translate_names.py: genapi/src/parser/elem_name.rs no longer has the shape the "
                                   "translator accepts (%s): gen/ElemNames.v cannot be regenerated" % e)
                 return False
-        tr = {"C01": "tools/translate_codec.py (macro arms and match arms of int_from_slice / bytes_from_int / float_from_slice / bytes_from_float, genapi/src/utils.rs -> gen/CodecSrc.v) and lib/RustBytes.v (from_xx_bytes / to_xx_bytes / copy_from_slice)",
+        tr = {"C03": "tools/translate_ivalue.py (statement-level translator with dictionary passing for traits: trait IValue and every implementation of genapi/src/ivalue.rs with impl_ivalue_for_imm! / impl_ivalue_for_vid! expanded from their parsed definitions, PIndex::index, the provided methods integer_value / float_value / str_value of trait ValueStore and NodeId::as_*_kind / expect_*_kind of store.rs, the I*Kind::maybe_from tables of interface.rs, the data types of elem_type.rs, value / set_value / min / max of IntegerNode and FloatNode, value / set_value of BooleanNode, current_value / set_entry_by_value of EnumerationNode, execute / is_done of CommandNode -> gen/IValueSrc.v; the requests to other nodes through the interface kinds, the value store, `as` conversions, the EnumEntry lookup and the cache forwarders (no-ops: CacheSink) are interpreted by model/IvOps.v over the primitives of model/Graph.v; shape of NodeBase::new / id, node_base(), impl_value_data_conversion! and enum ValueData asserted)",
+              "C01": "tools/translate_codec.py (macro arms and match arms of int_from_slice / bytes_from_int / float_from_slice / bytes_from_float, genapi/src/utils.rs -> gen/CodecSrc.v) and lib/RustBytes.v (from_xx_bytes / to_xx_bytes / copy_from_slice)",
               "C18": "tools/translate_access.py (NodeElementBase / RegisterBase is_readable, is_writable and the three controls, genapi/src/node_base.rs + register_base.rs -> gen/AccessSrc.v over model/AccessOps.v)",
               "C05": "tools/translate_formulaops.py (own parser / type checker / Gallina emitter for the evaluator of genapi/src/formula.rs: the From impls and coercions of EvaluationResult, wrapping_pow with its loop as a fuelled Fixpoint, every arm of Expr::eval_binop and Expr::eval_unop with the local macro_rules! expanded from their definitions, Expr::eval -> gen/FormulaOpsSrc.v), model/FormulaOps.v (the meaning of i64::overflowing_* / wrapping_* / signum, of the `as` casts and of the f64 operations as calls into the oracle record) and lib/RustInt.v",
               "C20": "tools/translate_memprot.py + tools/minirust.py (typed mini-Rust translator of enum AccessRight with every method of impl AccessRight, struct MemoryProtection with every method of impl MemoryProtection, and the provided methods write / read / range of trait Register, impl/src/memory.rs -> gen/MemProtSrc.v; Vec indexing, `&mut v[i]` places, slicing, copy_from_slice, vec![x; n], fold / for_each / for over an item list interpreted by model/MemProtOps.v) and lib/RustInt.v (debug-build semantics of the integer operations)",
               "C02": "tools/translate_bitmask.py (typed mini-Rust translator of `impl BitMask`, genapi/src/masked_int_reg.rs -> gen/BitMaskSrc.v) and lib/RustInt.v (debug-build semantics of the integer operations)",
+              "C16": "tools/translate_camera.py (statement-level translator of Camera::{params_ctxt, open, load_context, start_streaming, stop_streaming, close}, cameleon/src/camera.rs -> gen/CameraSrc.v: every statement in source order in the monad of model/Camera.v; self.ctrl / self.strm method calls with `?`, the guards with their early returns, expect_node!(..).set_value / .execute with node name, interface and literal from the source, channel(cap, DEFAULT_BUFFER_CAP), self.ctxt = Some(Ctxt::from_xml(..)?), clear_cache are interpreted by model/CamOps.v; macro_rules! expect_node, payload::channel, the fields of struct Camera and `use tracing::info` are pinned; info! lines and #[tracing::instrument] skipped; a Result that is not propagated is a ShapeError)",
               "C04": "tools/translate_cachepath.py (statement-level translator of RegisterBase::with_cache_or_read / read_and_cache / write_and_cache, IPort::read / write of PortNode, the ValueCtxt cache forwarders, the traits CacheStore / CacheStoreBuilder with their implementations for DefaultCacheStore and CacheSink and RegisterBase::store_invalidators, genapi/src/{register_base,port,lib,store,builder}.rs + parser/register_base.rs -> gen/CachePathSrc.v; HashMap / Vec operations, the state of a path, length(..) / address(..) / expect_iport_kind / the device interpreted by model/CacheOps.v; shape of struct RegisterBase / PortNode / ValueCtxt and of enum CachingMode asserted)",
               "C08": "tools/translate_proto.py (protocol tables -> gen/ProtoTables.v) and tools/translate_ackparse.py (typed mini-Rust translator of AckPacket::parse / AckCcd::parse / Status::parse / ScdKind::parse, the five ParseScd views behind scd_as, EventPacket::parse / EventCcd::parse / EventScd::parse with its loop and read_and_seek, device/src/u3v/protocol/{ack,event}.rs -> gen/AckParseSrc.v; cursor reads, seeks and slicing interpreted by model/CurOps.v; `while` loops become fuelled Fixpoints; shape of read_bytes_le in impl/src/bytes_io.rs and of u3v::Error asserted) and lib/RustInt.v (debug-build semantics of the integer operations)", "C09": "tools/translate_proto.py (protocol tables -> gen/ProtoTables.v) and tools/translate_serialize.py (typed mini-Rust translator of the structs, the trait CommandScd and its four implementations, the constructors, the length functions and every serializer of device/src/u3v/protocol/cmd.rs -> gen/SerializeSrc.v; serializers become lists of write operations interpreted by model/SerOps.v; shape of write_bytes_le in impl/src/bytes_io.rs asserted) and lib/RustInt.v (debug-build semantics of the integer operations)",
               "C11": "tools/translate_proto.py (protocol tables -> gen/ProtoTables.v) and tools/translate_streamparse.py (typed mini-Rust translator of Leader::parse / Trailer::parse, the specific leaders and trailers, the TryFrom<u16> tables and the getters of device/src/u3v/protocol/stream.rs, of every method of PayloadBuilder in cameleon/src/u3v/stream_handle.rs and of Payload::image_info / image / payload / into_vec in cameleon/src/payload.rs -> gen/StreamParseSrc.v; cursor reads, slicing and the chunk-walk loop are interpreted by model/RdOps.v; shape of read_bytes_le in impl/src/bytes_io.rs, of `#[from] std::io::Error` and of the `use` lines asserted) and lib/RustInt.v (debug-build semantics of the integer operations)",
               "C13": "tools/translate_decoders.py + tools/minirust.py (typed mini-Rust translator of the bit-level decoders, the bit macros, register_address and ParseBytes for BusSpeed of cameleon/src/u3v/register_map.rs -> gen/DecodersSrc.v) and lib/RustInt.v (debug-build semantics of the integer operations)",
               "C14": "tools/translate_decoders.py + tools/minirust.py (typed mini-Rust translator of genicam_file_version / file_type / compression_type of cameleon/src/u3v/register_map.rs -> gen/DecodersSrc.v) and lib/RustInt.v (debug-build semantics of the integer operations); tools/translate_xmlfetch.py (statement-level translator of DeviceControl::genapi, ControlHandle::verify_xml, ManifestTable::entries and the ManifestEntry accessors -> gen/XmlFetchSrc.v over the operation vocabulary model/XfOps.v)",
+              "C06": "tools/translate_control.py (statement-level translator of fn verify_range, ControlHandle::{assert_open, verify_ack, send_cmd with its retry loop, abrm, initialize_config} and <ControlHandle as DeviceControl>::{is_opened, open, close, read, write} with their chunk loops, cameleon/src/u3v/control_handle.rs -> gen/ControlSrc.v; the operations - handle fields, self.buffer with ghost contents, the control channel, serialize / AckPacket::parse / scd_as, slice chunking - are interpreted by model/CtlOps.v over the primitives of model/Control.v; unwrap_or_log!, From<u3v::Error> for ControlError and the register_map.rs accessors used by initialize_config are pinned by their text), tools/translate_chunks.py (chunk iterators -> gen/ReadChunks.v) and lib/RustInt.v (debug-build semantics of the integer operations)",
+              "C07": "tools/translate_control.py (statement-level translator of fn verify_range, ControlHandle::{assert_open, verify_ack, send_cmd with its retry loop, abrm, initialize_config} and <ControlHandle as DeviceControl>::{is_opened, open, close, read, write} with their chunk loops, cameleon/src/u3v/control_handle.rs -> gen/ControlSrc.v; the operations - handle fields, self.buffer with ghost contents, the control channel, serialize / AckPacket::parse / scd_as, slice chunking - are interpreted by model/CtlOps.v over the primitives of model/Control.v; unwrap_or_log!, From<u3v::Error> for ControlError and the register_map.rs accessors used by initialize_config are pinned by their text), tools/translate_chunks.py (chunk iterators -> gen/ReadChunks.v) and lib/RustInt.v (debug-build semantics of the integer operations)",
               "C10": "tools/translate_chunks.py (symbolic executor of ReadMemChunks::next / WriteMemChunks::next etc. -> gen/ReadChunks.v) and lib/RustInt.v",
-              "C15": "tools/translate_code.py (translator of enable_streaming + Sirm accessors -> gen/EnableStreaming.v) and lib/RustInt.v",
+              "C15": "tools/translate_code.py (translator of enable_streaming + Sirm accessors -> gen/EnableStreaming.v), tools/translate_streamparams.py (typed mini-Rust translator, on top of tools/translate_streamparse.py, of StreamParams::{new, maximum_payload_size, payload_transfer_sizes, from_control} and read_leader / read_payload / read_trailer of cameleon/src/u3v/stream_handle.rs -> gen/StreamParamsSrc.v; iterator adaptors, the for loop, submit on a buffer range and the register_map.rs calls are interpreted by model/SpOps.v + model/RdOps.v; the Sirm / Abrm getter bodies, Abrm::new / Abrm::sbrm / Sbrm::sirm, AsyncPool::submit and From<u3v::Error> for StreamError are asserted) and lib/RustInt.v",
+              "C12": "tools/translate_streamparams.py (typed mini-Rust translator, on top of tools/translate_streamparse.py, of StreamParams::{new, maximum_payload_size, payload_transfer_sizes, from_control} and read_leader / read_payload / read_trailer of cameleon/src/u3v/stream_handle.rs -> gen/StreamParamsSrc.v; iterator adaptors, the for loop, submit on a buffer range and the register_map.rs calls are interpreted by model/SpOps.v + model/RdOps.v; the Sirm / Abrm getter bodies, Abrm::new / Abrm::sbrm / Sbrm::sirm, AsyncPool::submit and From<u3v::Error> for StreamError are asserted) and lib/RustInt.v",
               "C17": "tools/translate_names.py (element names and literal tables -> gen/ElemNames.v)"}.get(pid)
         if tr and tr not in self.trusted:
             self.trusted.append("re-run on /repo's sources by this run: " + tr)
